@@ -583,11 +583,40 @@ func c02eof(c *an.Ctx) {
 			eofExit := false
 			why := ""
 			// loop condition is a character-class test on the consumed/peeked rune (false for eof)
+			// a character-class test is false for eof: isSpace(r), isAlphaNumeric(r), IndexRune(set, r) >= 0, ContainsRune(set, r)
+			classTest := func(e ast.Expr) bool {
+				cs := strings.ReplaceAll(an.Str(an.Unparen(e)), " ", "")
+				return strings.HasPrefix(cs, "isSpace(") || strings.HasPrefix(cs, "isAlphaNumeric(") || strings.HasPrefix(cs, "strings.IndexRune(") || strings.HasPrefix(cs, "strings.ContainsRune(")
+			}
 			if fs.Cond != nil {
-				cs := an.Str(fs.Cond)
-				if strings.HasPrefix(cs, "isSpace(") || strings.HasPrefix(cs, "isAlphaNumeric(") || strings.HasPrefix(cs, "strings.IndexRune(") || strings.Contains(cs, "l.state != nil") {
-					eofExit = true
+				for _, cj := range conjuncts(fs.Cond) {
+					if classTest(cj) || strings.Contains(an.Str(cj), "l.state != nil") {
+						eofExit = true
+					}
 				}
+			}
+			// a disjunct of an if condition that is true at end of input: X == eof, !classTest(X), i == -1
+			var disjuncts func(e ast.Expr) []ast.Expr
+			disjuncts = func(e ast.Expr) []ast.Expr {
+				e = an.Unparen(e)
+				if b, ok := e.(*ast.BinaryExpr); ok && b.Op == token.LOR {
+					return append(disjuncts(b.X), disjuncts(b.Y)...)
+				}
+				return []ast.Expr{e}
+			}
+			trueAtEOF := func(cond ast.Expr) bool {
+				for _, d := range disjuncts(cond) {
+					if b, ok := d.(*ast.BinaryExpr); ok && b.Op == token.EQL && (an.Str(b.Y) == "eof" || an.Str(b.X) == "eof") {
+						return true
+					}
+					if u, ok := d.(*ast.UnaryExpr); ok && u.Op == token.NOT && classTest(u.X) {
+						return true
+					}
+					if strings.ReplaceAll(an.Str(d), " ", "") == "i==-1" {
+						return true
+					}
+				}
+				return false
 			}
 			ast.Inspect(fs.Body, func(m ast.Node) bool {
 				switch x := m.(type) {
@@ -607,8 +636,7 @@ func c02eof(c *an.Ctx) {
 						eofExit = true
 					}
 				case *ast.IfStmt:
-					s := strings.ReplaceAll(an.Str(x.Cond), " ", "")
-					if (strings.HasSuffix(s, "==eof") || strings.HasPrefix(s, "!isAlphaNumeric(") || strings.HasPrefix(s, "!isSpace(") || s == "i==-1") && leaves(x.Body.List) {
+					if trueAtEOF(x.Cond) && leaves(x.Body.List) {
 						eofExit = true
 					}
 				}
